@@ -786,6 +786,7 @@ type Pure struct {
 	memo     map[pureKey]Val
 	reachM   map[pureKey]string // keyed by block's first instr? use block index via map below
 	reachB   map[[2]int]string
+	busy     map[pureKey]bool
 	depth    int
 }
 
@@ -943,6 +944,15 @@ func (p *Pure) term(v ssa.Value, mode int) Val {
 	if r, ok := p.memo[k]; ok {
 		return r
 	}
+	if p.busy == nil {
+		p.busy = map[pureKey]bool{}
+	}
+	if p.busy[k] {
+		p.env.errorf("loop in pure function %s (loop-carried value %s)", p.fn.String(), v.Name())
+		return p.env.freshVal("cyc", v.Type())
+	}
+	p.busy[k] = true
+	defer delete(p.busy, k)
 	r := p.term0(v, mode)
 	if r.T != "" && r.Loc == nil && r.Tup == nil && r.Clo == nil {
 		r.T = p.env.name("pv", r.S, r.T)
@@ -1139,6 +1149,14 @@ func (p *Pure) call(c *ssa.Call, mode int) Val {
 			y = p.env.materialize(y)
 		}
 		return Val{T: fmt.Sprintf("(= %s %s)", x.T, y.T), S: "Bool"}
+	}
+	if o := callee.Origin(); o != nil && o.Name() == "__vc_sliceoff" {
+		x, y := p.term(com.Args[0], mode), p.term(com.Args[1], mode)
+		return Val{T: fmt.Sprintf("(- (s.off %s) (s.off %s))", x.T, y.T), S: "Int"}
+	}
+	if o := callee.Origin(); o != nil && o.Name() == "__vc_samearray" {
+		x, y := p.term(com.Args[0], mode), p.term(com.Args[1], mode)
+		return Val{T: fmt.Sprintf("(= (s.arr %s) (s.arr %s))", x.T, y.T), S: "Bool"}
 	}
 	if o := callee.Origin(); o != nil && o.Name() == "__vc_sameslice" {
 		x, y := p.term(com.Args[0], mode), p.term(com.Args[1], mode)
